@@ -316,7 +316,7 @@ pub fn child_salts() {
 }
 
 pub fn replay(_case: &Value) -> Result<Option<String>, String> {
-    if _case.get("kind").and_then(|k| k.as_str()) == Some("e5") {
+    if _case.get("kind").and_then(|k| k.as_str()) .map(|k| k == "e5" || k == "e5-setup").unwrap_or(false) {
         return crate::e5::replay(_case);
     }
     Err("C08 histories depend on the production RNG; re-run ./vf check C08 (a real defect fails on every run)".into())
